@@ -322,15 +322,15 @@ package ast
 // the copy of a class does not share a backing array with the original (the optimizer appends to Chars/Ranges/UnicodeClasses in place)
 //@   ensures [no-shared-backing C09] is(res, "*CharClassMatcher") ==> fresh(bid(as(res, "*CharClassMatcher").Chars)) && fresh(bid(as(res, "*CharClassMatcher").Ranges)) && fresh(bid(as(res, "*CharClassMatcher").UnicodeClasses))
 // every child of the node is cloned in turn (a shallow copy of a child would be shared between inlined copies)
-//@   must-call cloneExpr [clones-action C09] if is(expr, "*ActionExpr") then expr == atcall(as(expr, "*ActionExpr").Expr)
-//@   must-call cloneExpr [clones-and C09] if is(expr, "*AndExpr") then expr == atcall(as(expr, "*AndExpr").Expr)
-//@   must-call cloneExpr [clones-labeled C09] if is(expr, "*LabeledExpr") then expr == atcall(as(expr, "*LabeledExpr").Expr)
-//@   must-call cloneExpr [clones-not C09] if is(expr, "*NotExpr") then expr == atcall(as(expr, "*NotExpr").Expr)
-//@   must-call cloneExpr [clones-plus C09] if is(expr, "*OneOrMoreExpr") then expr == atcall(as(expr, "*OneOrMoreExpr").Expr)
-//@   must-call cloneExpr [clones-star C09] if is(expr, "*ZeroOrMoreExpr") then expr == atcall(as(expr, "*ZeroOrMoreExpr").Expr)
-//@   must-call cloneExpr [clones-opt C09] if is(expr, "*ZeroOrOneExpr") then expr == atcall(as(expr, "*ZeroOrOneExpr").Expr)
-//@   must-call cloneExpr [clones-recovery-expr C09] if is(expr, "*RecoveryExpr") then expr == atcall(as(expr, "*RecoveryExpr").Expr)
-//@   must-call cloneExpr [clones-recovery-recover C09] if is(expr, "*RecoveryExpr") then expr == atcall(as(expr, "*RecoveryExpr").RecoverExpr)
+//@   must-call cloneExpr [clones-action C09 C04] if is(expr, "*ActionExpr") then expr == atcall(as(expr, "*ActionExpr").Expr)
+//@   must-call cloneExpr [clones-and C09 C04] if is(expr, "*AndExpr") then expr == atcall(as(expr, "*AndExpr").Expr)
+//@   must-call cloneExpr [clones-labeled C09 C04] if is(expr, "*LabeledExpr") then expr == atcall(as(expr, "*LabeledExpr").Expr)
+//@   must-call cloneExpr [clones-not C09 C04] if is(expr, "*NotExpr") then expr == atcall(as(expr, "*NotExpr").Expr)
+//@   must-call cloneExpr [clones-plus C09 C04] if is(expr, "*OneOrMoreExpr") then expr == atcall(as(expr, "*OneOrMoreExpr").Expr)
+//@   must-call cloneExpr [clones-star C09 C04] if is(expr, "*ZeroOrMoreExpr") then expr == atcall(as(expr, "*ZeroOrMoreExpr").Expr)
+//@   must-call cloneExpr [clones-opt C09 C04] if is(expr, "*ZeroOrOneExpr") then expr == atcall(as(expr, "*ZeroOrOneExpr").Expr)
+//@   must-call cloneExpr [clones-recovery-expr C09 C04] if is(expr, "*RecoveryExpr") then expr == atcall(as(expr, "*RecoveryExpr").Expr)
+//@   must-call cloneExpr [clones-recovery-recover C09 C04] if is(expr, "*RecoveryExpr") then expr == atcall(as(expr, "*RecoveryExpr").RecoverExpr)
 //@   ensures [wf C09 C13] IsExpr(res) && TreeWF()
 //@   loop#1 invariant [wf] 0 <= i && TreeWF() && forall k int :: 0 <= k && k < len(alts) ==> IsExpr(alts[k])
 //@   loop#2 invariant [wf] 0 <= i && TreeWF() && forall k int :: 0 <= k && k < len(exprs) ==> IsExpr(exprs[k])
